@@ -86,6 +86,7 @@ Section Congr.
 
   Lemma dpe_congr s : DecodePercentEncoded c1 s = DecodePercentEncoded c2 s.
   Proof.
+    clear idna_raw Hrep Hfail.
     assert (H : forall n s, (length s <= n)%nat -> DecodePercentEncoded c1 s = DecodePercentEncoded c2 s).
     { induction n as [|n IH]; intros t Hl.
       - destruct t; [reflexivity|cbn [length] in Hl; lia].
@@ -383,7 +384,6 @@ Section StepCongr.
   Hypothesis Hsf : c_sfragSet c1 = c_sfragSet c2.
   Hypothesis Hf : c_fragSet c1 = c_fragSet c2.
   Hypothesis Hs_base : forall b, base = Some b -> getSpecialScheme c1 (u_scheme b) = getSpecialScheme c2 (u_scheme b).
-  Hypothesis Hs_file : getSpecialScheme c1 s_file = getSpecialScheme c2 s_file.
 
   Lemma mherr_congr u t f k1 k2 :
     (forall v, k1 (set_verrs u v) = k2 (set_verrs u v)) -> mherr c1 u t f k1 = mherr c2 u t f k2.
@@ -586,12 +586,18 @@ End RunSim.
 (* ------------------------------------------------------------------ *)
 From Verif Require Import Proofs.Cleaning.
 
-Definition cleaned (x : str) (u0 : option url) : str :=
-  match u0 with Some _ => fst (remove_tabnl x) | None => clean x end.
+(* the byte string handed to the tab/newline removal: the trimmed input when no url argument is given *)
+Definition pre_input (x : str) (u0 : option url) : str :=
+  match u0 with Some _ => x | None => fst (trim_c0space x) end.
+(* the byte string the machine runs on; a = c_acceptInvalid *)
+Definition cleaned (a : bool) (x : str) (u0 : option url) : str := fst (remove_tabnl_sv a (pre_input x u0)).
 Definition start_url (x : str) (u0 : option url) : url :=
   match u0 with Some u => u | None => empty_url x end.
 Definition init_m (ov : option state) (u : url) : mstate :=
   mk (match ov with Some s => s | None => SchemeStart end) (-1)%Z false [] false false false u.
+
+Lemma cleaned_clean_sv a x : cleaned a x None = clean_sv a x.
+Proof. reflexivity. Qed.
 
 Lemma url_eta u : set_input (set_verrs u (u_verrs u)) (u_input u) = u.
 Proof. destruct u; reflexivity. Qed.
@@ -605,7 +611,7 @@ Section BP.
     run idna_raw c (decode i) (option_map clone b) ov (fuel_of (length (decode i))) (init_m ov u).
 
   Definition bp_start (c : cfg) (u : url) : result :=
-    let '(i, changed) := remove_tabnl (u_input u) in
+    let '(i, changed) := remove_tabnl_sv (c_acceptInvalid c) (u_input u) in
     let k (u : url) : result := machine_run c (u_input u) u in
     if changed then
       match handleError c u InvalidURLUnit false with
@@ -630,83 +636,113 @@ Section BP.
     end.
   Proof. reflexivity. Qed.
 
-  (* the shape of a BasicParser call depends on the configuration only through c_report and c_fail *)
-  Definition bp_shape (F : cfg -> result) (c : cfg) (s : url) (i : str) : Prop :=
-    (exists u e, forall c', c_report c' = c_report c -> c_fail c' = c_fail c -> F c' = RErr u e)
-    \/ (exists v, forall c', c_report c' = c_report c -> c_fail c' = c_fail c ->
-          F c' = machine_run c' i (set_input (set_verrs s v) i)).
+  (* the shape of a BasicParser call depends on the configuration only through c_report, c_fail and
+     what the tab/newline removal makes of the (trimmed) input j *)
+  Definition same_front (c c' : cfg) (j : str) : Prop :=
+    c_report c' = c_report c /\ c_fail c' = c_fail c /\
+    remove_tabnl_sv (c_acceptInvalid c') j = remove_tabnl_sv (c_acceptInvalid c) j.
+
+  Definition bp_shape (F : cfg -> result) (c : cfg) (s : url) (j : str) : Prop :=
+    let i := fst (remove_tabnl_sv (c_acceptInvalid c) j) in
+    (exists u e, forall c', same_front c c' j -> F c' = RErr u e)
+    \/ (exists v, forall c', same_front c c' j -> F c' = machine_run c' i (set_input (set_verrs s v) i)).
 
   Lemma handleError_dep c c' u t f : c_report c' = c_report c -> c_fail c' = c_fail c ->
     handleError c' u t f = handleError c u t f.
   Proof. intros H1 H2. unfold handleError. rewrite H1, H2. reflexivity. Qed.
 
   Lemma bp_start_shape c s v j :
-    bp_shape (fun c' => bp_start c' (set_input (set_verrs s v) j)) c s (fst (remove_tabnl j)).
+    bp_shape (fun c' => bp_start c' (set_input (set_verrs s v) j)) c s j.
   Proof.
-    unfold bp_shape, bp_start. cbn [u_input set_input].
-    destruct (remove_tabnl j) as [i ch] eqn:Er. cbn [fst].
+    unfold bp_shape, bp_start. cbn [u_input set_input]. cbv zeta.
+    destruct (remove_tabnl_sv (c_acceptInvalid c) j) as [i ch] eqn:Er. cbn [fst].
     destruct ch.
     - destruct (handleError c (set_input (set_verrs s v) j) InvalidURLUnit false) as [u' [e|]] eqn:He.
-      + left. exists u', e. intros c' H1 H2. rewrite (handleError_dep c c' _ _ _ H1 H2), He. reflexivity.
+      + left. exists u', e. intros c' (H1 & H2 & H3). rewrite H3, Er, (handleError_dep c c' _ _ _ H1 H2), He. reflexivity.
       + right. destruct (handleError_shape c (set_input (set_verrs s v) j) InvalidURLUnit false) as [w Hw].
-        rewrite He in Hw. cbn [fst] in Hw. exists w. intros c' H1 H2.
-        rewrite (handleError_dep c c' _ _ _ H1 H2), He. subst u'. reflexivity.
-    - right. exists v. intros c' _ _.
-      pose proof (remove_unchanged j) as H. rewrite Er in H. cbn [fst snd] in H. rewrite (H eq_refl). reflexivity.
+        rewrite He in Hw. cbn [fst] in Hw. exists w. intros c' (H1 & H2 & H3).
+        rewrite H3, Er, (handleError_dep c c' _ _ _ H1 H2), He. subst u'. reflexivity.
+    - right. exists v. intros c' (_ & _ & H3). rewrite H3, Er.
+      pose proof (remove_sv_unchanged (c_acceptInvalid c) j) as H. rewrite Er in H. cbn [fst snd] in H.
+      rewrite (H eq_refl). reflexivity.
   Qed.
 
   Lemma BasicParser_shape c x u0 :
-    bp_shape (fun c' => BasicParser idna_raw c' x b u0 ov) c (start_url x u0) (cleaned x u0).
+    bp_shape (fun c' => BasicParser idna_raw c' x b u0 ov) c (start_url x u0) (pre_input x u0).
   Proof.
-    destruct u0 as [u|]; cbn [start_url cleaned].
+    destruct u0 as [u|]; cbn [start_url pre_input].
     - pose proof (bp_start_shape c u (u_verrs u) x) as H.
-      unfold bp_shape in *. destruct H as [[u' [e H]]|[v H]].
-      + left. exists u', e. intros c' H1 H2. rewrite BasicParser_start. rewrite <- (H c' H1 H2). reflexivity.
-      + right. exists v. intros c' H1 H2. rewrite BasicParser_start. rewrite <- (H c' H1 H2). reflexivity.
-    - unfold clean. destruct (trim_c0space x) as [i ch] eqn:Et. cbn [fst].
+      unfold bp_shape in *. cbv zeta in *. destruct H as [[u' [e H]]|[v H]].
+      + left. exists u', e. intros c' Hc. rewrite BasicParser_start. rewrite <- (H c' Hc). reflexivity.
+      + right. exists v. intros c' Hc. rewrite BasicParser_start. rewrite <- (H c' Hc). reflexivity.
+    - destruct (trim_c0space x) as [i ch] eqn:Et. cbn [fst].
       destruct ch.
       + destruct (handleError c (empty_url x) InvalidURLUnit false) as [u' [e|]] eqn:He.
-        * left. exists u', e. intros c' H1 H2. rewrite BasicParser_start. cbv zeta. rewrite Et.
+        * left. exists u', e. intros c' (H1 & H2 & H3). rewrite BasicParser_start. cbv zeta. rewrite Et.
           rewrite (handleError_dep c c' _ _ _ H1 H2), He. reflexivity.
         * destruct (handleError_shape c (empty_url x) InvalidURLUnit false) as [w Hw].
           rewrite He in Hw. cbn [fst] in Hw. subst u'.
           pose proof (bp_start_shape c (empty_url x) w i) as H.
-          assert (E : set_input (set_verrs (empty_url x) w) i = set_input (set_verrs (empty_url x) w) i) by reflexivity.
-          unfold bp_shape in *. destruct H as [[u' [e H]]|[v H]].
-          -- left. exists u', e. intros c' H1 H2. rewrite BasicParser_start. cbv zeta. rewrite Et.
-             rewrite (handleError_dep c c' _ _ _ H1 H2), He. apply (H c' H1 H2).
-          -- right. exists v. intros c' H1 H2. rewrite BasicParser_start. cbv zeta. rewrite Et.
-             rewrite (handleError_dep c c' _ _ _ H1 H2), He. apply (H c' H1 H2).
+          unfold bp_shape in *. cbv zeta in *. destruct H as [[u' [e H]]|[v H]].
+          -- left. exists u', e. intros c' Hc. pose proof Hc as (H1 & H2 & H3).
+             rewrite BasicParser_start. cbv zeta. rewrite Et.
+             rewrite (handleError_dep c c' _ _ _ H1 H2), He. apply (H c' Hc).
+          -- right. exists v. intros c' Hc. pose proof Hc as (H1 & H2 & H3).
+             rewrite BasicParser_start. cbv zeta. rewrite Et.
+             rewrite (handleError_dep c c' _ _ _ H1 H2), He. apply (H c' Hc).
       + pose proof (trim_unchanged x) as Hx. rewrite Et in Hx. cbn [fst snd] in Hx. specialize (Hx eq_refl). subst i.
         pose proof (bp_start_shape c (empty_url x) [] x) as H.
-        unfold bp_shape in *. destruct H as [[u' [e H]]|[v H]].
-        * left. exists u', e. intros c' H1 H2. rewrite BasicParser_start. cbv zeta. rewrite Et. apply (H c' H1 H2).
-        * right. exists v. intros c' H1 H2. rewrite BasicParser_start. cbv zeta. rewrite Et. apply (H c' H1 H2).
+        unfold bp_shape in *. cbv zeta in *. destruct H as [[u' [e H]]|[v H]].
+        * left. exists u', e. intros c' Hc. rewrite BasicParser_start. cbv zeta. rewrite Et. apply (H c' Hc).
+        * right. exists v. intros c' Hc. rewrite BasicParser_start. cbv zeta. rewrite Et. apply (H c' Hc).
   Qed.
 
   (* lifting a relation between runs to BasicParser *)
-  Lemma BasicParser_lift c1 c2 x u0 :
-    c_report c1 = c_report c2 -> c_fail c1 = c_fail c2 ->
-    (forall v, let i := cleaned x u0 in
+  Lemma BasicParser_lift_gen c1 c2 x u0 :
+    same_front c2 c1 (pre_input x u0) ->
+    (forall v, let i := cleaned (c_acceptInvalid c2) x u0 in
        res_le (machine_run c1 i (set_input (set_verrs (start_url x u0) v) i))
               (machine_run c2 i (set_input (set_verrs (start_url x u0) v) i))) ->
     res_le (BasicParser idna_raw c1 x b u0 ov) (BasicParser idna_raw c2 x b u0 ov).
   Proof.
-    intros H1 H2 H. destruct (BasicParser_shape c2 x u0) as [[u [e S]]|[v S]].
-    - left. rewrite (S c1 H1 H2), (S c2 eq_refl eq_refl). reflexivity.
-    - rewrite (S c1 H1 H2), (S c2 eq_refl eq_refl). apply H.
+    intros Hf H. assert (Hr : same_front c2 c2 (pre_input x u0)) by (repeat split).
+    destruct (BasicParser_shape c2 x u0) as [[u [e S]]|[v S]].
+    - left. rewrite (S c1 Hf), (S c2 Hr). reflexivity.
+    - rewrite (S c1 Hf), (S c2 Hr). apply H.
   Qed.
 
-  Lemma BasicParser_lift_eq c1 c2 x u0 :
-    c_report c1 = c_report c2 -> c_fail c1 = c_fail c2 ->
-    (forall v, let i := cleaned x u0 in
+  Lemma BasicParser_lift_eq_gen c1 c2 x u0 :
+    same_front c2 c1 (pre_input x u0) ->
+    (forall v, let i := cleaned (c_acceptInvalid c2) x u0 in
        machine_run c1 i (set_input (set_verrs (start_url x u0) v) i) =
        machine_run c2 i (set_input (set_verrs (start_url x u0) v) i)) ->
     BasicParser idna_raw c1 x b u0 ov = BasicParser idna_raw c2 x b u0 ov.
   Proof.
-    intros H1 H2 H. destruct (BasicParser_shape c2 x u0) as [[u [e S]]|[v S]].
-    - rewrite (S c1 H1 H2), (S c2 eq_refl eq_refl). reflexivity.
-    - rewrite (S c1 H1 H2), (S c2 eq_refl eq_refl). apply H.
+    intros Hf H. assert (Hr : same_front c2 c2 (pre_input x u0)) by (repeat split).
+    destruct (BasicParser_shape c2 x u0) as [[u [e S]]|[v S]].
+    - rewrite (S c1 Hf), (S c2 Hr). reflexivity.
+    - rewrite (S c1 Hf), (S c2 Hr). apply H.
+  Qed.
+
+  (* the usual case: c_acceptInvalid is the same on both sides *)
+  Lemma BasicParser_lift c1 c2 x u0 :
+    c_report c1 = c_report c2 -> c_fail c1 = c_fail c2 -> c_acceptInvalid c1 = c_acceptInvalid c2 ->
+    (forall v, let i := cleaned (c_acceptInvalid c2) x u0 in
+       res_le (machine_run c1 i (set_input (set_verrs (start_url x u0) v) i))
+              (machine_run c2 i (set_input (set_verrs (start_url x u0) v) i))) ->
+    res_le (BasicParser idna_raw c1 x b u0 ov) (BasicParser idna_raw c2 x b u0 ov).
+  Proof.
+    intros H1 H2 H3. apply BasicParser_lift_gen. repeat split; try assumption. rewrite H3. reflexivity.
+  Qed.
+
+  Lemma BasicParser_lift_eq c1 c2 x u0 :
+    c_report c1 = c_report c2 -> c_fail c1 = c_fail c2 -> c_acceptInvalid c1 = c_acceptInvalid c2 ->
+    (forall v, let i := cleaned (c_acceptInvalid c2) x u0 in
+       machine_run c1 i (set_input (set_verrs (start_url x u0) v) i) =
+       machine_run c2 i (set_input (set_verrs (start_url x u0) v) i)) ->
+    BasicParser idna_raw c1 x b u0 ov = BasicParser idna_raw c2 x b u0 ov.
+  Proof.
+    intros H1 H2 H3. apply BasicParser_lift_eq_gen. repeat split; try assumption. rewrite H3. reflexivity.
   Qed.
 End BP.
 
@@ -735,3 +771,218 @@ Proof.
   apply step_congr_eq; auto.
   intros _ ns. apply parseHost_congr; assumption.
 Qed.
+
+(* ------------------------------------------------------------------ *)
+(* Case analysis of one step, and how the buffer evolves               *)
+(* ------------------------------------------------------------------ *)
+(* H : step ... = Cont m'  with `step` unfolded: split along every test until the result is explicit *)
+Ltac step_crush H :=
+  repeat (cbv beta iota in H;
+          match type of H with
+          | context [match ?x with _ => _ end] => destruct x eqn:?
+          end);
+  cbv beta iota in H; try discriminate H.
+
+(* what one step can append to the buffer; p is the position of the code point read *)
+Definition chunk (c : cfg) (inp : list rune) (p : Z) (e : str) : Prop :=
+  let r := if (n_inp inp <=? p)%Z then rune_error else cp_at inp p in
+  e = [] \/ e = utf8_enc r \/ e = utf8_enc (ascii_lower r) \/
+  (exists b, rune_at inp p = Some (Bad b) /\ e = [b]) \/
+  (exists tr, e = percentEncodeRune c r (Some tr)).
+
+Ltac buf_leaf :=
+  cbn [m_buf mk];
+  first
+    [ left; reflexivity
+    | right; eexists; split;
+      [ first [reflexivity | symmetry; apply app_nil_r]
+      | unfold chunk; cbv zeta;
+        first
+          [ left; reflexivity
+          | right; left; reflexivity
+          | right; right; left; reflexivity
+          | right; right; right; left; eexists; split; [eassumption|reflexivity]
+          | right; right; right; right; eexists; reflexivity
+          | right; right; right; right; unfold percentEncodeInvalidRune;
+            match goal with |- context [c_singlePct ?c] => destruct (c_singlePct c) end; eexists; reflexivity ] ] ].
+
+Lemma step_buf idna_raw c inp base ov m m' :
+  step idna_raw c inp base ov m = Cont m' ->
+  m_buf m' = [] \/ exists e, m_buf m' = m_buf m ++ e /\ chunk c inp (m_ptr m + 1) e.
+Proof.
+  intros H. destruct m as [st p0 e0 buf atF brF pwF u].
+  unfold step, mherr in H. cbn [m_state m_ptr m_eof m_buf m_at m_br m_pw m_url] in *.
+  set (p := (p0 + 1)%Z) in *.
+  set (r := if (n_inp inp <=? p)%Z then rune_error else cp_at inp p) in *.
+  set (eof := if (n_inp inp <=? p)%Z then true else e0) in *.
+  destruct st.
+  all: step_crush H.
+  all: injection H as <-; buf_leaf.
+Qed.
+
+(* ------------------------------------------------------------------ *)
+(* Frame: host parsing only appends to the recorded validation errors  *)
+(* ------------------------------------------------------------------ *)
+Definition vext (u u' : url) : Prop := exists v, u' = set_verrs u v.
+
+Lemma vext_refl u : vext u u.
+Proof. exists (u_verrs u). symmetry; apply set_verrs_eta. Qed.
+Lemma vext_trans u1 u2 u3 : vext u1 u2 -> vext u2 u3 -> vext u1 u3.
+Proof. intros [v ->] [w ->]. exists w. reflexivity. Qed.
+Lemma vext_he c u t f : vext u (fst (handleError c u t f)).
+Proof. destruct (handleError_shape c u t f) as [v ->]. exists v; reflexivity. Qed.
+
+Definition res_frame {A} (u : url) (r : res A) : Prop :=
+  match r with Ok u' _ => vext u u' | Er u' _ => vext u u' end.
+
+Lemma res_frame_trans {A} u u' (r : res A) : vext u u' -> res_frame u' r -> res_frame u r.
+Proof. intros H. destruct r; cbn [res_frame]; apply vext_trans, H. Qed.
+
+Section HostFrame.
+  Variable idna_raw : str -> str * bool.
+  Variable c : cfg.
+
+  Lemma herr_frame {A} u t f (k : url -> res A) :
+    (forall u', vext u u' -> res_frame u' (k u')) -> res_frame u (herr c u t f k).
+  Proof.
+    intros H. unfold herr. pose proof (vext_he c u t f) as V.
+    destruct (handleError c u t f) as [u' [e|]]; cbn [fst] in V; [exact V|].
+    apply (res_frame_trans u u'); [exact V|apply H, V].
+  Qed.
+
+  Lemma pin_frame u s : vext u (fst (parseIPv4Number c u s)).
+  Proof.
+    unfold parseIPv4Number. destruct s; [|apply vext_refl].
+    pose proof (vext_he c u IPv4EmptyPart true) as V. destruct (handleError c u IPv4EmptyPart true). exact V.
+  Qed.
+
+  Lemma ein_frame u s : vext u (fst (endsInANumber c u s)).
+  Proof.
+    unfold endsInANumber. cbv zeta.
+    match goal with |- context [match last_opt ?P with _ => _ end] => destruct (last_opt P) as [[|x l]|] end;
+      try apply vext_refl.
+    destruct (all_in isDigit (x :: l)); [apply vext_refl|].
+    pose proof (pin_frame u (x :: l)) as V. destruct (parseIPv4Number c u (x :: l)) as [u' [n ve|rg]]; exact V.
+  Qed.
+
+  Lemma ipv4_numbers_frame parts : forall u acc, res_frame u (ipv4_numbers c u parts acc).
+  Proof.
+    induction parts as [|p rest IH]; intros u acc; [apply vext_refl|].
+    cbn [ipv4_numbers]. pose proof (pin_frame u p) as V.
+    destruct (parseIPv4Number c u p) as [u1 [n ve|rg]]; cbn [fst] in V.
+    - destruct ve.
+      + apply (res_frame_trans u u1 _ V). apply herr_frame. intros; apply IH.
+      + apply (res_frame_trans u u1 _ V). apply IH.
+    - apply (res_frame_trans u u1 _ V). apply herr_frame. intros; apply IH.
+  Qed.
+
+  Lemma ipv4_range_warn_frame ns : forall u k, (forall u', res_frame u' (k u')) -> res_frame u (ipv4_range_warn c u ns k).
+  Proof.
+    induction ns as [|n rest IH]; intros u k H; cbn [ipv4_range_warn]; [apply H|].
+    destruct (255 <? n); [apply herr_frame; intros; apply IH, H|apply IH, H].
+  Qed.
+
+  Lemma parseIPv4_frame u s : res_frame u (parseIPv4 c u s).
+  Proof.
+    unfold parseIPv4.
+    assert (A : forall u parts, res_frame u
+      ((if (4 <? len parts)%Z then (fun k => herr c u IPv4TooManyParts true k) else (fun k => k u))
+        (fun u => match ipv4_numbers c u parts [] with
+           | Er u e => Er u e
+           | Ok u numbers =>
+             ipv4_range_warn c u numbers (fun u =>
+               let init := drop_last numbers in
+               if existsb (fun n => 255 <? n) init then herr c u IPv4OutOfRangePart true (fun u => Ok u [])
+               else match last_opt numbers with
+                    | None => Ok u []
+                    | Some lastn =>
+                        if 256 ^ (5 - N.of_nat (length numbers)) <=? lastn
+                        then herr c u IPv4OutOfRangePart true (fun u => Ok u [])
+                        else Ok u (IPv4String (lastn + ipv4_sum init 0))
+                    end)
+           end))).
+    { intros v parts.
+      assert (B : forall v, res_frame v (match ipv4_numbers c v parts [] with
+           | Er u e => Er u e
+           | Ok u numbers =>
+             ipv4_range_warn c u numbers (fun u =>
+               let init := drop_last numbers in
+               if existsb (fun n => 255 <? n) init then herr c u IPv4OutOfRangePart true (fun u => Ok u [])
+               else match last_opt numbers with
+                    | None => Ok u []
+                    | Some lastn =>
+                        if 256 ^ (5 - N.of_nat (length numbers)) <=? lastn
+                        then herr c u IPv4OutOfRangePart true (fun u => Ok u [])
+                        else Ok u (IPv4String (lastn + ipv4_sum init 0))
+                    end)
+           end)).
+      { intros w. pose proof (ipv4_numbers_frame parts w []) as V.
+        destruct (ipv4_numbers c w parts []) as [w' numbers|w' e]; [|exact V].
+        cbn [res_frame] in V. apply (res_frame_trans w w' _ V).
+        apply ipv4_range_warn_frame. intros u'. cbv zeta.
+        destruct (existsb (fun n => 255 <? n) (drop_last numbers)); [apply herr_frame; intros; apply vext_refl|].
+        destruct (last_opt numbers); [|apply vext_refl].
+        destruct (256 ^ (5 - N.of_nat (length numbers)) <=? n); [apply herr_frame; intros|]; apply vext_refl. }
+      destruct (4 <? len parts)%Z; [apply herr_frame; intros; apply B|apply B]. }
+    destruct (last_opt (split 46 s)) as [[|x l]|]; try apply A.
+    apply herr_frame. intros; apply A.
+  Qed.
+
+  Lemma parseIPv6_frame u s : res_frame u (parseIPv6 c u s).
+  Proof.
+    unfold parseIPv6. destruct (ipv6_parse (runes s)); [apply vext_refl|apply herr_frame; intros; apply vext_refl].
+  Qed.
+
+  Lemma opaque_loop_frame input l : forall u out, res_frame u (opaque_loop c u input l out).
+  Proof.
+    induction l as [|ch rest IH]; intros u out; [apply vext_refl|].
+    cbn [opaque_loop].
+    assert (K : forall u, res_frame u
+        ((if negb (isURLCodePoint ch) && negb (ch =? 37)
+          then (fun k => herr c u InvalidURLUnit false k) else (fun k => k u))
+         (fun u =>
+           (if (ch =? 37) && invalid_pct (ch :: rest)
+            then (fun k => herr c u InvalidURLUnit false k) else (fun k => k u))
+           (fun u => opaque_loop c u input rest (out ++ percentEncodeRune c ch (Some pes_C0)))))).
+    { intros v.
+      assert (K2 : forall v, res_frame v
+          ((if (ch =? 37) && invalid_pct (ch :: rest)
+            then (fun k => herr c v InvalidURLUnit false k) else (fun k => k v))
+           (fun u => opaque_loop c u input rest (out ++ percentEncodeRune c ch (Some pes_C0))))).
+      { intros w. destruct ((ch =? 37) && invalid_pct (ch :: rest)); [apply herr_frame; intros|]; apply IH. }
+      destruct (negb (isURLCodePoint ch) && negb (ch =? 37)); [apply herr_frame; intros|]; apply K2. }
+    destruct (isForbiddenHost ch); [|apply K].
+    destruct (c_lax c); [apply vext_refl|]. apply herr_frame. intros; apply K.
+  Qed.
+
+  Lemma host_clean_frame u a : res_frame u (host_clean c u a).
+  Proof.
+    unfold host_clean. pose proof (ein_frame u a) as V.
+    destruct (endsInANumber c u a) as [u' [|]]; cbn [fst] in V.
+    - apply (res_frame_trans u u' _ V), parseIPv4_frame.
+    - exact V.
+  Qed.
+
+  Lemma host_valid_frame d u : res_frame u (host_valid idna_raw c d u).
+  Proof.
+    unfold host_valid. destruct (ToASCII idna_raw c d) as [a|].
+    - destruct (existsb isForbiddenDomain (runes a)); [|apply host_clean_frame].
+      destruct (c_lax c); [apply vext_refl|]. apply herr_frame. intros; apply host_clean_frame.
+    - destruct (c_lax c); [apply vext_refl|]. apply herr_frame. intros; apply vext_refl.
+  Qed.
+
+  Theorem parseHost_frame u s ns : res_frame u (parseHost idna_raw c u s ns).
+  Proof.
+    rewrite parseHost_unfold. cbv zeta.
+    destruct (apply_hostfun (c_pre c) s) as [|x r]; [apply vext_refl|].
+    destruct (x =? 91).
+    - unfold host_v6. destruct (negb (has_suffix [93] (x :: r))); [apply herr_frame; intros|]; apply parseIPv6_frame.
+    - destruct ns; [apply opaque_loop_frame|].
+      unfold host_domain. cbv zeta.
+      destruct (negb (valid_utf8 (DecodePercentEncoded c (x :: r)))); [|apply host_valid_frame].
+      destruct (c_lax c); [apply vext_refl|]. apply herr_frame. intros; apply host_valid_frame.
+  Qed.
+
+  Corollary parseHost_ok_frame u s ns u' h : parseHost idna_raw c u s ns = Ok u' h -> exists v, u' = set_verrs u v.
+  Proof. intros H. pose proof (parseHost_frame u s ns) as F. rewrite H in F. exact F. Qed.
+End HostFrame.
